@@ -771,6 +771,9 @@ def run(tier, seed, replay=None):
         print("recorded impl:", rep.get("impl"))
         return 0
 
+    if drv_ok:
+        fxo, _, _ = proto.run_lines([orch.MODEL_BIN], ["id=0 alloc=fixes"])
+        res.extra["model_fixes"] = dict(order="fmtcopy,lsconv,wprobe,vswrep,normtmp,reorder,compose", current=fxo.get("0", {}).get("fx"), override=fx.strip() or None)
     inv, other = inventory()
     inv_sites = {(rel, ordn): (call, ln) for rel, ln, call, ordn in inv}
     res.extra["allocation_site_inventory"] = ["%s:%d %s (#%d in file) -> %s" % (rel, ln, call, ordn, label((rel, ordn))) for rel, ln, call, ordn in inv]
